@@ -138,6 +138,22 @@ CHECKS = {
              "records as it re-arranges integers (the placement oracle runs the same numpy function on index arrays) — the "
              "index maps of repeat/tile/split/diag/choose/advanced indexing are numpy's, not modelled. dtype preservation is "
              "checked on /repo only. Known finding D21 (repeat default axis)."),
+    "C11": dict(
+        technique="Coq proof: the wrappers map constant arrays (names (q0,), one zero exponent row) to constant arrays carrying "
+                  "the column function's values, the comparison loops on constants are the numeric comparisons, the numeric "
+                  "division wrapper refuses unguarded non-constants; bridge over the division guards regenerated by ast; numpy "
+                  "on the raw arrays as oracle for every registered function",
+        text="Theorems (Props/P_C11.v, closed under the global context), for every column function f, shape, values and option "
+             "record: dispatch1/dispatch2/prearr/plinear/pnumdiv applied to constant arrays return exactly the constant array of "
+             "f's values (so tonumpy(numpoly.f(const)) = numpy.f(values)); constants denote constants; < <= > >= on constants are "
+             "the numeric comparisons for the four shipped loops, == is value equality, maximum/minimum select by them; a "
+             "successful numeric division implies the guarded operands were constant and a non-constant guarded operand gives "
+             "FeatureNotSupported. Bridge: floor_divide/true_divide/remainder/divmod of /repo all guard the divisor before dividing.",
+        note="Trusted: Coq kernel+VM, MathComp; translator const_tr.py. The numpy functions themselves are the oracle, not "
+             "modelled: every registered function with a generator is called on constants (numpoly and numpy spelling) and "
+             "compared with numpy on the raw arrays for values, shape and result kind. Calls that numpy itself rejects are "
+             "counted, not judged. argmax/argmin/amax/amin first-occurrence and placement are checked on /repo only (fixes "
+             "D14, D14b). Known findings D21 (repeat default axis), D22 (zero-size diff)."),
     "C10": dict(
         technique="Coq proof: linear column functions (sum, cumsum, mean, diff, ediff1d) give the same linear combination of "
                   "the element polynomials for EVERY weight matrix; prod = ordered product of slices (induction over the fold "
